@@ -235,7 +235,9 @@ def check(model, rep, tier):
                     det += f"; column `{k}` is written from {v!r} (expected {want_base.name}{' as float32' if want_base.f32 else ''}[:, {want_idx}])"
             MT = Matcher(f)
             wc = [c for c in calls_in(f) if isinstance(c.func, ast.Attribute) and c.func.attr == "with_columns"]
-            if not (len(wc) == 1 and MT.all_of(["$df = pl.DataFrame($$d)", "$df = $df.with_columns(list(self._features))", "return $df"])[0]):
+            if not (len(wc) == 1 and (MT.all_of(["$df = pl.DataFrame($$d)", "$df = $df.with_columns(list(self._features))", "return $df"])[0] or
+                                      MT.all_of(["$df = pl.DataFrame($$d)", "return $df.with_columns(list(self._features))"])[0] or
+                                      MT.all_of(["$df = pl.DataFrame($$d)", "$out = $df.with_columns(list(self._features))", "return $out"])[0])):
                 ok = False
                 det += "; features are not appended with df.with_columns(list(self._features))"
         rep.ob("S10", f.anchor, "to_dataframe writes pos[:, 0..2] as z, y, x and rotvec[:, 0..2] (float32) as zvec, yvec, xvec, then the features", ok, det,
